@@ -269,12 +269,14 @@ open(os.path.join(LEAN, "MsqProofs/Lemmas/ParseCaseDefs.lean"), "w", encoding="u
 NPARTS = 6
 parts = [[] for _ in range(NPARTS)]
 for i, n in enumerate(order): parts[i % NPARTS].append(n)
-NEED5 = {"pFunc", "pSingleParen", "pSplit", "pSelectStmt", "pWindowBody"}      # functions whose step needs ParseCase5.lean (hand-written extras)
+HANDSTEP = {"pSplit", "pSelectStmt"}                 # fuel steps proved by hand in ParseCase7.lean (the two-sided split is too slow on them)
+NEED5 = {"pFunc", "pSingleParen", "pWindowBody"}      # functions whose step needs ParseCase5.lean (hand-written extras)
 for k, names in enumerate(parts):
     out = ["import MsqProofs.Lemmas.ParseCase5" if NEED5 & set(names) else "import MsqProofs.Lemmas.ParseCaseDefs", HEADER % ("fuel step for the mutual block, part %d of %d" % (k + 1, NPARTS))] + OPTS
     out += ["variable (d : Gen.D)", ""]
     for n in names:
         f = fns[n]
+        if n in HANDSTEP: continue
         out.append("theorem caseF_%s (n : Nat) (ih : CaseF d n) :" % n)
         out.append("    %s := by" % step_statement(f, "(n+1)"))
         out.append(intro_line(f))
@@ -284,7 +286,7 @@ for k, names in enumerate(parts):
     out += ["end PM"]
     open(os.path.join(LEAN, "MsqProofs/Lemmas/ParseCaseE%d.lean" % (k + 1)), "w", encoding="utf-8").write("\n".join(out) + "\n")
 
-out = ["import MsqProofs.Lemmas.ParseCaseE%d" % (k + 1) for k in range(NPARTS)]
+out = ["import MsqProofs.Lemmas.ParseCaseE%d" % (k + 1) for k in range(NPARTS)] + ["import MsqProofs.Lemmas.ParseCase7"]
 out += [HEADER % "the mutual block, induction on the fuel; plain forms"] + OPTS + ["variable (d : Gen.D)", ""]
 out.append("/-- **Case invariance of the expression / SELECT parser** -/")
 out.append("theorem caseF_all : ∀ n, CaseF d n := by")
